@@ -307,7 +307,7 @@ theorem parse_v2_ir_eq_model (plist : Bytes → Option PView) (prior : Tables) (
 
 /-- **The subject of every C02 theorem is the interpreted source**: `parse plist fromKdBuf prior data` (what
     `v2_events_partial`, `v2_tables`, `e2e_…` speak about) equals the translated `parse` / `parse_v2` / `parse_v3` /
-    `seek_until` / `set_thread_map` run by the interpreter (+ the hand-modelled tail of `parse_v3`). -/
+    `seek_until` / `set_thread_map` run by the interpreter (all of them translated whole). -/
 theorem parse_is_interpreted_source (plist : Bytes → Option PView) (prior : PState) (data : Bytes) :
     parse plist fromKdBuf prior data = PyIRRd.parseVia Gen.PyIRRd.prog plist fromKdBuf prior data :=
   PyIRRd.parse_eq_parseVia_gen source_is_expected_ir plist prior data
